@@ -43,10 +43,13 @@ impl AckFrequencyState {
         // Use the peer's max_ack_delay if no custom max_ack_delay was provided in the config
         let min_ack_delay =
             Duration::from_micros(peer_params.min_ack_delay.map_or(0, |x| x.into()));
+        // The peer's `min_ack_delay` may exceed the upper bound we would pick ourselves; never
+        // request less than it accepts (and never hand `clamp` an empty range, which panics)
+        let upper = rtt.max(MIN_AUTOMATIC_ACK_DELAY).max(min_ack_delay);
         config
             .max_ack_delay
             .unwrap_or(self.peer_max_ack_delay)
-            .clamp(min_ack_delay, rtt.max(MIN_AUTOMATIC_ACK_DELAY))
+            .clamp(min_ack_delay, upper)
     }
 
     /// Returns the `max_ack_delay` for the purposes of calculating the PTO
